@@ -137,6 +137,7 @@ let hist_run (init : 'st) (step : 'st -> op -> 'st * out) (disk : 'st -> n list)
         | "case" :: id :: _ -> st := init; print_endline ("case " ^ id)
         | "keytab" :: _ -> ()
         | "end" :: _ -> print_endline "end"
+        | "setabort" :: _ -> print_endline "err foreign"   (* an aborted write: an error, and no effect *)
         | "disk" :: _ ->
           (* the harness waits for pool quiescence before walking the roots *)
           let (st', _) = step !st ODrain in st := st';
